@@ -265,12 +265,48 @@ func extraC02Reader(c *Ctx, r *Report) {
 				}
 				return cells[ch]
 			}
-			var fromRecv func(v ssa.Value, d int) bool
-			fromRecv = func(v ssa.Value, d int) bool {
+			var fromRecvIn func(v ssa.Value, d int, isCell func(ssa.Value) bool) bool
+			fromRecv := func(v ssa.Value, d int) bool { return fromRecvIn(v, d, isCell) }
+			fromRecvIn = func(v ssa.Value, d int, isCell func(ssa.Value) bool) bool {
+				fromRecv := func(v ssa.Value, d int) bool { return fromRecvIn(v, d, isCell) }
 				if d == 0 {
 					return false
 				}
 				switch x := v.(type) {
+				case *ssa.Call:
+					// a helper that waits for the reader on the caller's behalf: it is handed the channel and returns what
+					// it received (or nil)
+					h := x.Call.StaticCallee()
+					if h == nil || h.Blocks == nil || !c.inRepo(h) {
+						return false
+					}
+					chanParams := map[ssa.Value]bool{}
+					for i, a := range x.Call.Args {
+						if isCell(a) && i < len(h.Params) {
+							chanParams[h.Params[i]] = true
+						}
+					}
+					if len(chanParams) == 0 {
+						return false
+					}
+					isCellH := func(ch ssa.Value) bool {
+						if ct, ok := ch.(*ssa.ChangeType); ok {
+							ch = ct.X
+						}
+						return chanParams[ch]
+					}
+					okAll, some := true, false
+					for _, ret := range returnsOf(h) {
+						rv := retResult(ret, 0)
+						if isNilConst(rv) {
+							continue
+						}
+						some = true
+						if !fromRecvIn(rv, d-1, isCellH) {
+							okAll = false
+						}
+					}
+					return okAll && some
 				case *ssa.Alloc:
 					st := cellStores(x)
 					if len(st) == 0 {
@@ -314,6 +350,44 @@ func extraC02Reader(c *Ctx, r *Report) {
 				}
 				return false
 			}
+			// the owner of the read protocol: the function that starts the reader and tells ITS caller whether to read
+			// again — normally the function containing the `go`; when that function is only a starter that hands the
+			// result channel back (startBodyRead), its callers own the protocol and the channel is what it returned.
+			starter := f
+			owners := []*ssa.Function{f}
+			ssig := f.Signature.Results()
+			if !(ssig.Len() == 2 && ssig.At(1).Type().String() == "error") {
+				chanIdx := -1
+				for _, ret := range returnsOf(f) {
+					for k, rv := range ret.Results {
+						if _, isChan := rv.Type().Underlying().(*types.Chan); isChan && isCell(rv) {
+							chanIdx = k
+						}
+					}
+				}
+				if chanIdx >= 0 {
+					owners = nil
+					for _, g := range c.Funcs {
+						eachInstr(g, func(x ssa.Instruction) {
+							call, ok := x.(*ssa.Call)
+							if !ok || call.Call.StaticCallee() != starter {
+								return
+							}
+							if ssig.Len() == 1 {
+								cells[call] = true
+							} else {
+								for _, ref := range *call.Referrers() {
+									if ex, ok := ref.(*ssa.Extract); ok && ex.Index == chanIdx {
+										cells[ex] = true
+									}
+								}
+							}
+							owners = append(owners, g)
+						})
+					}
+				}
+			}
+			for _, f := range owners {
 			sig := f.Signature.Results()
 			if sig.Len() != 2 || sig.At(1).Type().String() != "error" {
 				r.Undecided("C02-R5", fname(f)+":shape", f.Pos(), "a goroutine body reader whose owner does not return (result, error): the continue/stop protocol cannot be identified")
@@ -391,6 +465,7 @@ func extraC02Reader(c *Ctx, r *Report) {
 						r.Bad("C02-R5", key, ci.Pos(), "the read loop can call the reader again after a stop signal (nil result or error) while the previous reader goroutine may still be blocked in Read")
 					}
 				})
+			}
 			}
 		})
 	}
